@@ -85,6 +85,11 @@ CHECKS = {
     technique="exhaustive grid enumeration of (y, yhat, spread, weights, shapes) for every loss kernel against closed-form negative log-likelihoods and their sympy derivatives",
     text="loss, diff_loss and diff2Loss of Square, Normal, Poisson, Gamma and NegBinom equal minus the summed log-density (written independently) and its first and second derivative in the prediction, for scalar and per-observation spread, one-column and vector predictions, weights on and off.",
     note="Real arguments on an explicit grid only; derivatives from sympy.diff evaluated by mpmath."),
+ "C17": dict(
+    category="model_checking", design_ref="DESIGN.md §5 C17",
+    technique="stateless exploration of the real ABC sampler under an environment that owns every prior draw, particle choice and kernel draw (deviation-bounded DFS over answer classes relative to the tolerance in force), in lock-step with a reference model of the algorithm whose trace is compared with the library's particle table after every proposal and every call",
+    text="For 12 parameter sets (uniform/gamma/normal priors, log-scale flags incl. mixed masks, inferred initial states listed before parameters, population constraint, one to three inferred quantities, Square/Normal/Poisson loss) x 11 schedules (rejection, tolerance list, quantile with exact and interpolated quantiles, nearest-neighbour kernels, get/continue/continue) every execution with at most 1 (quick; 2 on selected configurations) / 2 (thorough) non-default answers is enumerated. Each proposal is answered ACCEPT / REJECT_TOL / REJECT_PRIOR / DUPLICATE (incl. the particle whose distance is exactly the quantile tolerance). After every proposal the library's particle table must agree with the reference accept/reject decision; after every call particles are exactly the accepted proposals, inside the support, stored distance = reference cost recomputed by parameter name and below the generation's tolerance, weights positive and finite, tolerance schedule as the reference computes it and non-increasing under quantiles.",
+    note="Reference cost from closed-form trajectories; answers keep a 10% margin to the tolerance (except the exact-boundary duplicate); executions where the library computes a singular proposal covariance are cut and counted. Kernel answers stay within six standard deviations of the requested kernel."),
  "C18": dict(
     category="exploration", design_ref="DESIGN.md §5 C18",
     technique="exhaustive enumeration of fit configurations (model x generating parameters x loss class x observed states x target_param order x box shape x start lattice x bound container), each executed on the real fit and judged with a reference cost",
